@@ -8,7 +8,7 @@ package super
 // "accepted size" is defined by the code: markAlloc does not panic iff this holds (G2, proved in nfs).
 //@ specfunc acceptedSize(sz uint64) = sz/32768 < 31229 && sz >= 1539 + sz/32768
 
-//@ spec MkFsSuper
+//@ spec MkFsSuper(d)
 //@   props C15
 //@   requires d.tag != 0
 //@   ensures [G1-fields] fresh(result) && superInv(result) @C15 @C04
